@@ -293,6 +293,117 @@ func runC15(c *engine.Ctx) {
 		}
 	}
 	c.Floor(n, 2)
+
+	c.Rule("R5b", "the CloseProxy notification names the proxy that was closed and uses a content value allocated for that proxy (not one shared across loop iterations and goroutines)")
+	n = 0
+	getName := method(c, "server/proxy", "Proxy", "GetName")
+	nameF := field(c, "pkg/msg", "CloseProxy", "ProxyName")
+	if pxyClose != nil && plugClose != nil && getName != nil && nameF != nil {
+		for _, sym := range []string{"server.Control.worker", "server.Control.CloseProxy"} {
+			f := fn(c, sym)
+			if f == nil {
+				continue
+			}
+			closes := engine.CallsTo(f, pxyClose)
+			for _, nc := range engine.CallsToDeep(f, plugClose) {
+				n++
+				arg := engine.CallArgs(nc)[1]
+				// resolve through the goroutine closure's free variable
+				for i := 0; i < 4; i++ {
+					v := engine.Unwrap(arg)
+					if u, ok := v.(*ssa.UnOp); ok && u.Op == token.MUL {
+						if fv, ok := u.X.(*ssa.FreeVar); ok {
+							if b := engine.ClosureBinding(fv); b != nil {
+								// the cell holding the content pointer: follow its single store
+								if al, ok := b.(*ssa.Alloc); ok {
+									if refs := al.Referrers(); refs != nil {
+										for _, r := range *refs {
+											if st, ok := r.(*ssa.Store); ok && st.Addr == al {
+												arg = st.Val
+											}
+										}
+									}
+								}
+								continue
+							}
+						}
+					}
+					if fv, ok := v.(*ssa.FreeVar); ok {
+						if b := engine.ClosureBinding(fv); b != nil {
+							arg = b
+							continue
+						}
+					}
+					break
+				}
+				al, ok := engine.Unwrap(arg).(*ssa.Alloc)
+				key := sym + ">content"
+				if !ok || !al.Heap {
+					c.Undecide(key, nc.Pos(), "cannot identify the allocation of the notification content (found %s)", engine.Describe(arg))
+					continue
+				}
+				okFresh := true
+				why := ""
+				for _, cl := range closes {
+					h := engine.LoopHeader(cl.Block())
+					if h != nil && !(h.Dominates(al.Block()) && al.Block() != h) {
+						okFresh = false
+						why = "the content is allocated outside the loop that closes the proxies: all notifications share one value that the loop keeps overwriting"
+					}
+				}
+				// the name stored into the content derives from GetName of a closed proxy
+				nameOK := false
+				for _, sv := range nameStores(al, nameF) {
+					src := engine.Provenance(sv, engine.ProvOpts{})
+					if src.HasCall(getName) {
+						nameOK = true
+					}
+				}
+				if okFresh && !nameOK {
+					okFresh, why = false, "the notification's ProxyName is not the closed proxy's name"
+				}
+				if okFresh {
+					c.Hold(key, nc.Pos(), 3, []string{"content allocated at " + c.P.Pos(al.Pos())}, "notification content is allocated per closed proxy and named after it")
+				} else {
+					c.Violate(key, nc.Pos(), []string{"content allocated at " + c.P.Pos(al.Pos())}, "%s", why)
+				}
+			}
+		}
+	}
+	c.Floor(n, 2)
+}
+
+// nameStores returns the values stored into (nested) field fv of the struct allocated by al.
+func nameStores(al *ssa.Alloc, fv *types.Var) []ssa.Value {
+	var out []ssa.Value
+	var visit func(addr ssa.Value, d int)
+	visit = func(addr ssa.Value, d int) {
+		if d > 4 {
+			return
+		}
+		refs := addr.Referrers()
+		if refs == nil {
+			return
+		}
+		for _, r := range *refs {
+			fa, ok := r.(*ssa.FieldAddr)
+			if !ok || fa.X != addr {
+				continue
+			}
+			if f, _ := engine.LoadedField(fa); f == fv {
+				if fr := fa.Referrers(); fr != nil {
+					for _, u := range *fr {
+						if st, ok := u.(*ssa.Store); ok && st.Addr == fa {
+							out = append(out, st.Val)
+						}
+					}
+				}
+			}
+			visit(fa, d+1)
+		}
+	}
+	visit(al, 0)
+	return out
 }
 
 // nonNilOnPath: v is a definitely non-nil error, or the path carries the fact v != nil.
